@@ -188,7 +188,14 @@ class ManageSieveConnection:
 
     async def _read_command(self) -> Command:
         cmd_buf = await self._read_data()
-        cmd, _ = Command.parse(cmd_buf, self.params)
+        try:
+            cmd, _ = Command.parse(cmd_buf, self.params)
+        except (ValueError, RecursionError) as exc:
+            # e.g. a number with thousands of digits: a bad command, not a
+            # reason to drop the connection
+            if isinstance(exc, NotParseable):
+                raise
+            raise NotParseable(cmd_buf) from exc
         return cmd
 
     async def _write_response(self, resp: Response) -> None:
